@@ -293,11 +293,12 @@ class EventMixin (object):
     # possibly re-sorts this very list) or unsubscribe during delivery.
     handlers = list(self._eventMixin_handlers.get(eventType, []))
     for (priority, handler, once, eid) in handlers:
+      # One-shot handlers go away even if they raise
+      if once: self.removeListener(eid)
       if classCall:
         rv = event._invoke(handler, *args, **kw)
       else:
         rv = handler(event, *args, **kw)
-      if once: self.removeListener(eid)
       if rv is None: continue
       if rv is False:
         self.removeListener(eid)
